@@ -64,7 +64,7 @@ class PathCtx:
     def note(self, text):
         self.samples.append(text)
 
-    def expect(self, cond, sig, desc, native=None, upto=None, fatal=False):
+    def expect(self, cond, sig, desc, native=None, upto=None, fatal=False, shim=None):
         """The property demands `cond` here.  Decided by the solver under the path condition."""
         self.obligations += 1
         w = self.w
@@ -83,6 +83,9 @@ class PathCtx:
         try:
             cz = Concretiser(self.scn, m)
             scenario = cz.scenario(upto)
+            if shim is not None:
+                scenario["shim"] = shim
+                scenario["steps"] = scenario["steps"][:shim["step"] + 1]
             for k, t in list(w.sym_inputs.items())[:40]:
                 try:
                     mv[k] = str(m.eval(t, model_completion=True))
@@ -92,6 +95,8 @@ class PathCtx:
         except Unreplayable as e:
             spec = {"kind": "unreplayable", "why": str(e)}
         kinds = [st.outcome.kind for st in self.scn.log[:upto]] if self.scn is not None else None
+        if shim is not None and kinds is not None:
+            kinds = kinds[:shim["step"]] + ["crash"]
         c = Candidate(self.task["family"], sig, desc, scenario, spec, [d[2] + "=" + str(d[0]) for d in w.decisions][-40:], mv, kinds)
         self.candidates.append(c)
         # continue the path on the side where the expectation holds, if there is one
